@@ -4,6 +4,7 @@ CONSTANTS
   Templates <- TplC17q
   Bundles <- NoBundle
   Ctxs <- Wide
+  Reqs <- FullReq
   Tries <- One
   Hists <- NoHist
   BackoffCfgs <- BoCfgs
